@@ -830,3 +830,49 @@ def r1_11(run):
 
 
 RULES.append(("R1.11", r1_11))
+
+EXPLANATION += (' ' + '(R1.12) extract_branch_results_with_internals writes the hydraulic result lists (the parameters named *_hydraulics: mass '
+                'flows, velocities, pressures of branches with internal sections) at the rows selected by the lookup `active_hydraulics` and by '
+                'no other connectivity lookup: a branch that carries flow but is not reached by a temperature feed is inactive for the heat '
+                'transfer only, and filtering its mass flow by the thermal lookup leaves NaN next to junctions that do report a pressure.')
+
+
+def r1_12(run):
+    """which branch rows receive a reported mass flow: in the result extraction of branches with internals every store made for the
+    hydraulic result lists (path condition mentions a parameter *_hydraulics) selects its rows with get_lookup(net, 'branch',
+    'active_hydraulics'); the thermal lookup ('active_heat_transfer') may only select rows for the *_heat / res_branch_ht lists."""
+    from ..arrnf import ANF, walk, show as tshow
+    ix = run.index
+    f = ix.func("pandapipes.pf.result_extraction.extract_branch_results_with_internals")
+    run.analysed(f)
+    rm = ANF(ix, f).run()
+    hyd_params = {a.arg for a in f.node.args.args if a.arg.endswith("_hydraulics")}
+    if len(hyd_params) < 3:
+        raise AnalysisError("extract_branch_results_with_internals: the *_hydraulics result lists are not parameters any more (%s)" % sorted(hyd_params))
+    n = 0
+    for s in rm.stores():
+        names = {x[1] for c_, _ in (s.cond or ()) for x in walk(c_) if x[0] == "n"}
+        hp = sorted(names & hyd_params)
+        if not hp:
+            continue
+        keys = []
+        for part in list(s.index) + [s.value]:
+            for x in walk(part):
+                if x[0] == "call" and x[1][0] == "f" and x[1][1].endswith(".get_lookup") and len(x[2]) >= 3:
+                    k = x[2][2]
+                    if "active" in tshow(k):
+                        keys.append(k)
+        if not keys:
+            continue  # rows placed by element index (mean values): no connectivity filter in this store
+        n += 1
+        bad = [k for k in keys if k != ("c", "active_hydraulics")]
+        run.ob("extract_branch_results_with_internals|%s|rows-by-hydraulic-lookup" % hp[0], not bad,
+               "the rows that receive the hydraulic results of %s are selected by get_lookup(net, 'branch', 'active_hydraulics')" % hp[0],
+               run.where(f, f.node), detail=tshow(bad[0])[:160] if bad else None)
+    run.stat("hydraulic_result_stores_with_connectivity_filter", n)
+    if n < 2:
+        raise AnalysisError("unrecognised shape: fewer than two filtered stores of hydraulic results in extract_branch_results_with_internals (%d)" % n)
+    run.floor(2)
+
+
+RULES.append(("R1.12", r1_12))
